@@ -39,6 +39,21 @@ ASSUMPTIONS = [
 @oracle
 def relabel_equivariance(model, obs, emb, init, mask, iterations, opts, perms):
     """fit(init[..., perm, :], mask[..., perm, :]) == fit(init, mask) with the class axis permuted by perm"""
+    r = _relabel_equivariance(model, obs, emb, init, mask, iterations, opts, perms)
+    if isinstance(r, Fail) and (opts or {}).get('inline_permutation_aligner') is not None:
+        ties = pu.inline_aligner_ties(model, obs, init, iterations, opts, mask)
+        if ties == 'exact':
+            return Fail('inline-aligner-score-tie-broken-by-class-order',
+                        f'{model} with inline_permutation_aligner={opts["inline_permutation_aligner"]}: a score matrix of the '
+                        f'aligner contains exactly equal entries (posteriors clipped by affiliation_eps are bit-identical); '
+                        f'the greedy flat arg-max takes the first, i.e. breaks the tie by class index, and the relabelled '
+                        f'run follows another alignment: {r.desc}')
+        if ties == 'rounding':
+            return Skip('tie-within-rounding: inline aligner score tie')
+    return r
+
+
+def _relabel_equivariance(model, obs, emb, init, mask, iterations, opts, perms):
     name = model
     y = obs if name in pu.COMPLEX_OBS else emb
     K = init.shape[-2]
@@ -134,14 +149,29 @@ def _case(rng, name, K, quick, wca=None):
                 iterations=it, opts=opts, perms=perms), dict(K=K, D=D, N=N, kind=kind, nperm=len(perms))
 
 
+def aligner_tie_case():
+    """fixed configuration in which the inline greedy aligner (euclidean metric) meets exactly tied scores: one-hot start,
+    posteriors clipped by affiliation_eps (known finding `inline-aligner-score-tie-broken-by-class-order`)"""
+    rng = np.random.default_rng(7)
+    F, T, D, K = 5, 12, 3, 3
+    y = rng.normal(size=(F, T, D)) + 1j * rng.normal(size=(F, T, D))
+    init = np.eye(K)[rng.integers(0, K, size=(F, T))].transpose(0, 2, 1)
+    return dict(model='cacgmm', obs=y, emb=None, init=np.ascontiguousarray(init), mask=None, iterations=6,
+                opts={'weight_constant_axis': (-3,), 'affiliation_eps': 1e-3,
+                      'inline_permutation_aligner': {'kind': 'greedy', 'metric': 'euclidean'}},
+                perms=[[1, 2, 0]])
+
+
 def search(ctx):
     rng = ctx.rng
     quick = ctx.tier == 'quick'
+    ctx.count('targeted:inline-aligner-exact-tie')
+    ctx.run(relabel_equivariance, **aligner_tie_case())
     sched = []
     for name in pu.MODELS:
         # every tying option of every trainer at least once, K = 2..4 exhaustively, then K = 5, 6 sampled
         opts_w = pu.wca_options(name, 3)
-        for r in range(ctx.n(2, 30)):
+        for r in range(ctx.n(5, 40)):
             for w in opts_w:
                 sched.append((name, int(rng.choice([2, 3, 3, 4, 4, 5, 6])), w))
     for j in rng.permutation(len(sched)):
